@@ -279,7 +279,11 @@ func isStructValue(t types.Type) (*types.Struct, bool) {
 func (sc *sortCtx) sortOf(t types.Type) string {
 	t = types.Unalias(t)
 	if tp, ok := t.(*types.TypeParam); ok {
-		n := "TP_" + mangle(tp.Obj().Name())
+		// one uninterpreted sort for all type parameters: the same parameter goes by different
+		// names in different generic declarations (Elem / Fact, Key / NodeID), and values of
+		// different type parameters are never compared in well-typed code or specifications
+		_ = tp
+		n := "TP"
 		sc.d.add("s:"+n, fmt.Sprintf("(declare-sort %s 0)", n))
 		return n
 	}
